@@ -75,7 +75,19 @@ where
         match self.spv_client.poll_best_tip().await {
             Ok((chain_tip, _)) => {
                 match chain_tip {
-                    ChainTip::Common => log::debug!("No new best tip found"),
+                    ChainTip::Common => {
+                        log::debug!("No new best tip found");
+                        // Make sure the block we are at is on disk even if no better tip has been seen
+                        // yet. Otherwise a tower going down at this point would restart from bitcoind's
+                        // best tip, skipping every block mined in the meantime (and their breaches).
+                        let dbm = self.dbm.lock().unwrap();
+                        if dbm.load_last_known_block().is_none() {
+                            dbm.store_last_known_block(
+                                &self.last_known_block_header.header.block_hash(),
+                            )
+                            .unwrap();
+                        }
+                    }
 
                     ChainTip::Better(new_best) => {
                         log::debug!("Updating best tip: {}", new_best.header.block_hash());
